@@ -18,7 +18,8 @@ from io import StringIO
 
 STREAMS = ['gen-events', 'parse-result', 'proxy-calls', 'handler-events', 'malformed-defs']
 THEOREMS = ['handler_gen', 'handler_gen_fresh', 'proxy_accepts_same_calls', 'declared_method_count',
-            'known_reused_unless_replaced', 'generated_attribute_values_need_no_escaping', 'xml_cache_coherent']
+            'known_reused_unless_replaced', 'generated_attribute_values_need_no_escaping', 'xml_cache_coherent',
+            'members_sorted']
 TRUSTED_BASE = [
     'expat / xml.sax: text <-> SAX events (the model starts at the event level; validated per case by parsing the '
     'generated text with a recording ContentHandler and comparing with the model\'s event list)',
@@ -151,7 +152,10 @@ def gen_ops(rng, malformed=False):
 
 
 def gen_ifdef(rng, name=None, malformed=False):
-    return {'name': name if name is not None else gen_iface_name(rng), 'ops': gen_ops(rng, malformed)}
+    d = {'name': name if name is not None else gen_iface_name(rng), 'ops': gen_ops(rng, malformed)}
+    if rng.random() < 0.3:
+        d['ctor'] = True
+    return d
 
 
 def final_members(ifdef):
@@ -200,6 +204,16 @@ def gen_doc(rng, malformed=False):
                 known.append({'name': n, 'ops': [list(o) for o in ifs[names.index(n)]['ops']]})
             else:
                 known.append(gen_ifdef(rng, n))
+    opath = path
+    if rng.random() < 0.06:
+        path = rng.choice(['/', '/a', '/a/b', '/nothing/here', '/a/b/c'])
+    registered = 0
+    if not malformed and not dup and path == opath and rng.random() < 0.15:
+        # the exporter lives in the same process: its interface objects themselves are in the cache
+        known = [d for d in known if d['name'] not in names]
+        for d in ifs:
+            known.append({'name': d['name'], 'ops': [list(o) for o in d['ops']], 'same_object': True})
+            registered += 1
     queries = []
     pool = []
     for d in ifs + ([PROPS_DEF] if objkind == 'dbusobject' else []):
@@ -215,8 +229,6 @@ def gen_doc(rng, malformed=False):
             queries.append([rng.choice([None, 'org.freedesktop.DBus.Peer', 'no.such']),
                             rng.choice(['Ping', 'Introspect', 'GetManagedObjects', 'Nope', 'GetAll']),
                             rng.choice([0, 0, 1])])
-    if rng.random() < 0.06:
-        path = rng.choice(['/', '/a', '/a/b', '/nothing/here', '/a/b/c'])
     return {'kind': 'doc', 'replace': rng.choice([0, 1]), 'path': path, 'known': known, 'objs': objs,
             'objkind': objkind, 'queries': queries, 'dup': bool(dup), 'malformed': bool(malformed)}
 
@@ -327,7 +339,18 @@ def exc_kind(e):
     return 'exc:' + type(e).__name__
 
 
+def member_of(I, op):
+    if op[0] == 'm':
+        return I.Method(op[1], op[2], op[3])
+    if op[0] == 's':
+        return I.Signal(op[1], op[2])
+    return I.Property(op[1], op[2], bool(op[3]), bool(op[4]), {'t': True, 'f': False, 'i': 'invalidates'}[op[5]])
+
+
 def build_iface(I, d):
+    if d.get('ctor') and all(op[0] in ('m', 's', 'p') for op in d['ops']):
+        # the members handed to the constructor: DBusInterface(name, *members)
+        return I.DBusInterface(d['name'], *[member_of(I, op) for op in d['ops']], noRegister=True)
     i = I.DBusInterface(d['name'], noRegister=True)
     for op in d['ops']:
         k = op[0]
@@ -457,7 +480,7 @@ def observe_doc(case):
     def body():
         obs = {}
         try:
-            known_objs = [build_iface(I, d) for d in case['known']]
+            known_objs = [None if d.get('same_object') else build_iface(I, d) for d in case['known']]
             exported = {}
             declared = None
             for p, ifs in case['objs']:
@@ -466,6 +489,11 @@ def observe_doc(case):
                 exported[p] = o
                 if p == case['path']:
                     declared = list(o.getInterfaces())
+                    for j, d in enumerate(case['known']):
+                        if d.get('same_object'):
+                            known_objs[j] = [b for b in built if b.name == d['name']][0]
+            if any(k is None for k in known_objs):
+                known_objs = [k if k is not None else build_iface(I, d) for k, d in zip(known_objs, case['known'])]
         except Exception as e:      # noqa - canonicalised
             obs['line'] = 'err ' + exc_kind(e)
             return obs
@@ -807,6 +835,12 @@ def doc_stats(ctx, case):
                     ctx.stat('emitsOnChange=' + op[5])
     ctx.stat('replace=%d known=%d' % (case['replace'], len(case['known'])))
     ctx.stat('objkind=' + case['objkind'])
+    if any(d.get('same_object') for d in case['known']):
+        ctx.stat('exporter-registered-in-cache')
+    for p, ifs in case['objs']:
+        if p == case['path']:
+            for d in ifs:
+                ctx.stat('built-by=' + ('constructor' if d.get('ctor') and all(o[0] in 'msp' and len(o[0]) == 1 for o in d['ops']) else 'add-calls'))
 
 
 def nontrivial_doc(case):
@@ -897,10 +931,10 @@ def run(ctx):
         else:
             run_docs(ctx, [c], malformed=bool(c.get('malformed')))
     run_docs(ctx, fixed_cases())
-    n = ctx.scale(quick=2500, thorough=40000)
+    n = ctx.scale(quick=2000, thorough=50000)
     run_docs(ctx, [gen_doc(ctx.rng) for _ in range(n)])
-    run_evs(ctx, [gen_evs(ctx.rng) for _ in range(ctx.scale(quick=2500, thorough=40000))])
-    run_docs(ctx, [gen_doc(ctx.rng, malformed=True) for _ in range(ctx.scale(quick=500, thorough=6000))],
+    run_evs(ctx, [gen_evs(ctx.rng) for _ in range(ctx.scale(quick=2000, thorough=50000))])
+    run_docs(ctx, [gen_doc(ctx.rng, malformed=True) for _ in range(ctx.scale(quick=400, thorough=8000))],
              malformed=True)
 
 
